@@ -260,30 +260,23 @@ theorem reload_ok {bb : Option Name} {w : World} (hw : Inv w) {a : Oid} {A : Obj
   | some T =>
     have hTo := (getO_some hT).2
     have hTm := (getO_some hT).1
-    by_cases hm : t = masterOid
-    · simp only [hm, if_true]
-      apply stepOK_same hw w rfl
-      · exact noEuid_of_all (by simp [recOf]) rfl
-      · simp [exportClause, recOf]
-      · simp [askedClause, recOf]
-    · simp only [hm, if_false]
-      apply stepOK_of
-      · exact Inv_setO hw { T with euid := none } (hw.uid T hTm) _ rfl
-      · intro e hmem
-        rcases frame_setO hw.wf hmem with h | h
-        · refine Or.inr (Or.inl ?_)
-          simp [isMade, recOf, h]
-        · exact Or.inl h
-      · intro c hc m hmade
-        simp at hc
-        subst hc
-        simp at hmade
-        subst hmade
-        simp [getO_setO]
-      · simp [creationClause, recOf, madeOk, hTo, hT]
-      · exact noEuid_of_all (by simp [recOf]) rfl
-      · simp [exportClause, recOf]
-      · simp [askedClause, recOf]
+    apply stepOK_of
+    · exact Inv_setO hw { T with euid := none } (hw.uid T hTm) _ rfl
+    · intro e hmem
+      rcases frame_setO hw.wf hmem with h | h
+      · refine Or.inr (Or.inl ?_)
+        simp [isMade, recOf, h]
+      · exact Or.inl h
+    · intro c hc m hmade
+      simp at hc
+      subst hc
+      simp at hmade
+      subst hmade
+      simp [getO_setO]
+    · simp [creationClause, recOf, madeOk, hTo, hT]
+    · exact noEuid_of_all (by simp [recOf]) rfl
+    · simp [exportClause, recOf]
+    · simp [askedClause, recOf]
 
 /-! ### creation -/
 
